@@ -1,7 +1,7 @@
 (* C08 -- request size limits are enforced exactly, early, and cannot be bypassed. *)
 From Coq Require Import String.
 From Http Require Import Model.Bytes Model.Num Model.Headers Model.Request Spec.Delivery
-     Proofs.ReqResume Proofs.Safety Proofs.Limits Proofs.LimitsNone.
+     Proofs.ReqResume Proofs.Safety Proofs.Limits Proofs.LimitsNone Spec.ChunkedGrammar Spec.HeaderGrammar Proofs.LimitsExact.
 
 (* defaults (compared with Request::new() on every run) *)
 Example C08_defaults :
@@ -88,6 +88,35 @@ Theorem C08_none_max_message_size :
     req_parse uri uri_parse (with_mm cfg None) st buf = req_parse uri uri_parse cfg st buf.
 Proof. exact no_max_message_size. Qed.
 Print Assumptions C08_none_max_message_size.
+
+(* exact in the other direction: a size rejection is issued only when that limit is really
+   exceeded (corollaries of C03_rejection_names_first_defect) *)
+Theorem C08_request_line_rejection_exact :
+  forall (uri : Type) (uri_parse : bytes -> option uri) cfg s (st : req_state uri),
+    req_parse uri uri_parse cfg req_init s = (st, Reject ERequestLineTooLong) ->
+    exists n, rl cfg = Some n /\
+      ((exists l rest, s = l ++ CRLF ++ rest /\ is_line l /\ (n < N.of_nat (length l))%N) \/
+       (find_crlf s = None /\ (n < N.of_nat (length (strip_cr s)))%N)).
+Proof. exact request_line_too_long_only_if_exceeded. Qed.
+Print Assumptions C08_request_line_rejection_exact.
+
+Theorem C08_header_line_rejection_exact :
+  forall (uri : Type) (uri_parse : bytes -> option uri) cfg s (st : req_state uri),
+    req_parse uri uri_parse cfg req_init s = (st, Reject (EHeaders HTooLong)) ->
+    exists n k, hl cfg = Some n /\ (n < N.of_nat k)%N /\ k <= length s + 2.
+Proof. exact header_line_too_long_only_if_exceeded. Qed.
+Print Assumptions C08_header_line_rejection_exact.
+
+Theorem C08_message_size_rejection_exact :
+  forall (uri : Type) (uri_parse : bytes -> option uri) cfg s (st : req_state uri),
+    req_parse uri uri_parse cfg req_init s = (st, Reject EMessageTooLong) ->
+    exists m x, mm cfg = Some m /\ (m < x)%N /\
+      ((x <= N.of_nat (length s))%N \/
+       (exists l rest fs v n, s = l ++ CRLF ++ rest /\
+          header_value (map field_header fs) CONTENT_LENGTH = Some v /\ parse_dec v = Some n /\
+          x = N.min (N.of_nat (length l + 2 + length (header_block fs)) + n) USIZE_MAX)).
+Proof. exact message_too_long_only_if_exceeded. Qed.
+Print Assumptions C08_message_size_rejection_exact.
 
 (* exactness at the boundary values, each limit at "exact" and "exact - 1" *)
 Definition idp (b : bytes) : option bytes := Some b.
